@@ -4418,6 +4418,139 @@ def _payload_contains_name(v, prefix, depth=0):
     return False
 
 
+def k_map_find_value(E, tier):
+    """C13: map.get / map.has-key (find_value): the flat lookup is exactly OrderMap::get(map, key) (whose `==`
+    semantics E1 checks); with a chain of further keys each step looks the next key up *in the map found by
+    the previous step* and the answer is `nothing` as soon as a step does not yield a map; the closures turn
+    the answer into the value or null (get) and into a boolean (has-key)."""
+    cssv = E.load_enum("css/value.rs", "Value", "css::value::Value")
+    f = E.find(name="find_value")
+    rec = Rec("map::find_value and the map.get / map.has-key closures", f, E)
+    ctx = E.ctx()
+    top = sym.Opaque("OrderMap", "map", ctx)
+    key = sym.Opaque("css::value::Value", "key", ctx)
+    keys = sym.Opaque("css::value::Value", "keys", ctx)
+    chain = []
+
+    def full(ex, st, x):
+        while isinstance(x, sym.Ref):
+            x = ex.deref(st, x)
+        return x
+
+    def m_get(ex, st, c, a, d):
+        m_, k_ = full(ex, st, a[0]), full(ex, st, a[1])
+        some, none = st.fork(), st.fork()
+        v = sym.Opaque("css::value::Value", "found%d" % sum(1 for e in st.events if e.callee == "get"), ctx)
+        for s2, r in ((some, "some"), (none, "none")):
+            e = sym.Event("get", a, r, len(st.pc))
+            e.rargs = [m_, k_]
+            e.found = v
+            s2.events.append(e)
+        return [(some, sym.Agg(d, "Some", {"0": sym.Ref("val", v)}, 1)), (none, sym.Agg(d, "None", {}, 0))]
+
+    def m_next(ex, st, c, a, d):
+        n = sum(1 for e in st.events if e.callee == "chain-some")
+        if n >= 2:
+            st.events.append(sym.Event("cut", [], None, len(st.pc)))
+            return sym.Agg(d, "None", {}, 0)
+        while len(chain) <= n:
+            chain.append(sym.Opaque("css::value::Value", "chain-key%d" % len(chain), ctx))
+        some, none = st.fork(), st.fork()
+        some.events.append(sym.Event("chain-some", [], None, len(st.pc)))
+        none.events.append(sym.Event("chain-none", [], None, len(st.pc)))
+        return [(some, sym.Agg(d, "Some", {"0": sym.Ref("val", chain[n])}, 1)), (none, sym.Agg(d, "None", {}, 0))]
+
+    def m_check(ex, st, c, a, d):
+        ok, err = st.fork(), st.fork()
+        return [(ok, sym.Agg(d, "Ok", {"0": sym.Unit()}, 0)), (err, sym.Agg(d, "Err", {"0": sym.Opaque("ArgsError", "e", ctx)}, 1))]
+
+    ident = lambda ex, st, c, a, d: a[0]
+    models = [(r"^OrderMap::<css::value::Value, css::value::Value>::get$", m_get), (r"^<std::slice::Iter<'_, css::value::Value> as Iterator>::next$", m_next),
+              (r"^<&Vec<css::value::Value> as IntoIterator>::into_iter$", lambda ex, st, c, a, d: sym.Opaque("iter", "chain-iter", ctx)),
+              (r"^css::call_args::CallArgs::check_no_named$", m_check)] + _result_models() + BASE_MODELS
+    ex = sym.Executor(ctx, models=models, unroll=5, feasibility=E.feasibility(ctx), max_paths=4000)
+    paths = [p for p in ex.run(f, [sym.Ref("val", top), sym.Ref("val", key), sym.Ref("val", keys)]) if p.status == "return"]
+    rec.paths = len(paths)
+    KD = keys.discriminant().term
+    seen = set()
+    bad = []
+    n_ok = 0
+    for i, p in enumerate(paths):
+        if any(e.callee == "cut" for e in p.events):
+            continue
+        if not (isinstance(p.ret, sym.Agg) and p.ret.variant == "Ok"):
+            continue
+        n_ok += 1
+        gets = [e for e in p.events if e.callee == "get"]
+        res = p.ret.fields["0"]
+        if not gets or gets[0].rargs[0] is not top or gets[0].rargs[1] is not key:
+            bad.append("path %d: the first lookup is get(map, key)" % i)
+            continue
+        # each further lookup is made in the map found by the previous step, with the next key of the chain
+        ok = True
+        for k in range(1, len(gets)):
+            prev = gets[k - 1]
+            inner = prev.found.children.get("Map.0")
+            if prev.result != "some" or gets[k].rargs[0] is not inner:
+                ok = False
+        if not ok:
+            bad.append("path %d: each step descends into the map found by the previous step" % i)
+            continue
+        last = gets[-1]
+        some_res = isinstance(res, sym.Agg) and res.variant == "Some"
+        if some_res:
+            got = res.fields["0"]
+            got = got.target if isinstance(got, sym.Ref) else got
+            if not (last.result == "some" and got is last.found):
+                bad.append("path %d: the answer is what the last lookup found" % i)
+            seen.add("found-%d" % len(gets))
+        else:
+            seen.add("none-%d" % len(gets))
+    rec.add("find_value: get(map, key) first, each further key looked up in the map found by the previous step, the answer is the last lookup's (%d Ok paths)" % n_ok,
+            {"verdict": "holds" if not bad and n_ok else ("violated" if bad else "inconclusive"), "per_solver": {"structural": "; ".join(bad[:3]) or "event identity"}, "time_s": 0})
+    if not {"found-1", "none-1", "found-2"} <= seen:
+        rec.add("flat and chained lookups explored (%s)" % sorted(seen), {"verdict": "inconclusive", "per_solver": {}, "time_s": 0})
+    # the closures
+    for fn, contains in (("get", ["find_value", "cloned"]), ("has-key", ["find_value", "is_some"])):
+        g = E.find(name_re=r"^map::create_module::\{closure#\d+\}$", contains=contains)
+        ctx2 = E.ctx()
+        vals = {}
+        ans = sym.Opaque("std::option::Option<&css::value::Value>", "answer", ctx2)
+
+        def m_fv(ex_, st, c, a, d, ctx2=ctx2, ans=ans):
+            ok, err = st.fork(), st.fork()
+            e = sym.Event("find_value", a, ans, len(st.pc))
+            e.rargs = [ex_.resolve_ref(st, x) for x in a]
+            ok.events.append(e)
+            return [(ok, sym.Agg(d, "Ok", {"0": ans}, 0)), (err, sym.Agg(d, "Err", {"0": sym.Opaque("CallError", "e", ctx2)}, 1))]
+
+        def m_is_some(ex_, st, c, a, d):
+            return sym.mk_bool("(= %s %s)" % (ex_.discriminant(ex_.resolve_ref(st, a[0])).term, bvlit(1, 64)))
+
+        def m_into_bool(ex_, st, c, a, d):
+            return sym.Agg("css::value::Value", "BOOL", {"0": a[0]})
+
+        models2 = [(r"^find_value$", m_fv), (r"^Option::<&css::value::Value>::cloned$", lambda ex_, st, c, a, d: a[0]),
+                   (r"^Option::<&css::value::Value>::is_some$", m_is_some), (r"^<bool as std::convert::Into<css::value::Value>>::into$", m_into_bool),
+                   (r"^Option::<css::value::Value>::unwrap_or$", lambda ex_, st, c, a, d: sym.Agg("css::value::Value", "UNWRAP_OR", {"0": a[0], "1": a[1]}))] + _color_fn_models(E, ctx2, vals)
+        ex2 = sym.Executor(ctx2, models=models2, feasibility=E.feasibility(ctx2))
+        ps = [p for p in ex2.run(g, [sym.Opaque("closure", "self", ctx2), sym.Opaque("&ResolvedArgs", "s", ctx2)]) if p.status == "return" and isinstance(p.ret, sym.Agg) and p.ret.variant == "Ok"]
+        rec.paths += len(ps)
+        good = bool(ps)
+        for p in ps:
+            fv = [e for e in p.events if e.callee == "find_value"]
+            out = p.ret.fields["0"]
+            wired = len(fv) == 1 and fv[0].rargs[0] is vals.get("map") and fv[0].rargs[1] is vals.get("key") and fv[0].rargs[2] is vals.get("keys")
+            if fn == "get":
+                shape = isinstance(out, sym.Agg) and out.variant == "UNWRAP_OR" and out.fields["0"] is ans and isinstance(out.fields["1"], sym.Agg) and out.fields["1"].variant == "Null"
+            else:
+                shape = isinstance(out, sym.Agg) and out.variant == "BOOL" and isinstance(out.fields["0"], sym.Scalar) and ans.disc is not None and ans.disc.term in out.fields["0"].term
+            good = good and wired and shape
+        rec.add("map.%s: find_value($map, $key, $keys) %s" % (fn, "cloned, or null when nothing was found" if fn == "get" else "is_some as a boolean"),
+                {"verdict": "holds" if good else ("violated" if ps else "inconclusive"), "per_solver": {"structural": "event identity"}, "time_s": 0})
+    return rec
+
+
 def k_value_eq_symmetric(E, tier):
     """C12: css::Value::eq is symmetric as a function of the two values' kinds and of the (symmetric)
     comparisons of their parts: eq(a,b) and eq(b,a) are executed symbolically and must be the same
